@@ -812,11 +812,18 @@ impl KotoVm {
         // than Active before exiting.
         self.execution_state = ExecutionState::Active;
 
+        // Sequences and strings that are still being built when an error leaves this function
+        // get discarded, otherwise they would stay behind in the VM.
+        let sequence_builder_count = self.sequence_builders.len();
+        let string_builder_count = self.string_builders.len();
+
         while let Some(instruction) = self.reader.next() {
             if let Some(timeout) = timeout.as_mut()
                 && timeout.check_for_timeout()
             {
                 self.execution_state = ExecutionState::Inactive;
+                self.sequence_builders.truncate(sequence_builder_count);
+                self.string_builders.truncate(string_builder_count);
                 return self
                     .pop_call_stack_on_error(
                         ErrorKind::Timeout(timeout.execution_limit).into(),
@@ -871,6 +878,8 @@ impl KotoVm {
                             *vm = Some(self.spawn_shared_vm().into());
                         }
                         self.execution_state = ExecutionState::Inactive;
+                        self.sequence_builders.truncate(sequence_builder_count);
+                        self.string_builders.truncate(string_builder_count);
                         return Err(error);
                     }
                 },
